@@ -4,7 +4,7 @@ import os
 import re
 
 from ..core.engine import Res
-from ..core.rules import (who_reads_discr, wire, must_pass, errset, guard_inventory, err_inventory, inventory_check, guard,
+from ..core.rules import (who_reads_discr, wire, must_pass, errset, guard,
                           checked_calls)
 from ..core.fa_rule import fa_for
 from ..core.panics import TABLES
@@ -92,23 +92,6 @@ def run(ctx):
                   lambda P_, fq=fq: wire(P_, fq, r'proposal_filter::path_update_required$|path_update_required$', 0, r'apply_resolved\(.*\)\.applied_proposals$'), floor=1)
     ctx.check('GUARD', 'receiver demands the path the committer would have sent',
               lambda P_: guard(P_, 'MessageProcessor::process_commit', 'truth', r'is_none\(.*path\)', None, 'CommitMissingPath'), floor=1)
-    gi, ei = _load('guard_inventory.json').get(cfg), _load('err_inventory.json').get(cfg)
-
-    def inv_g(P_):
-        if gi is None:
-            return Res().bad('baseline-missing', 'no guard inventory for configuration ' + cfg)
-        base = {k: v for k, v in gi.items() if re.search(RULE_FNS, k)}
-        return inventory_check(guard_inventory(P_, RULE_FNS), base, 'guard', lambda fnq, k, n, have, cur:
-                               'proposal-rule function `%s` had %d guard(s) [fails-when %s] on the reviewed tree, now %d (now: %s)' % (fnq, n, k, have, cur))
-    ctx.check('GUARD-INVENTORY', 'proposal rules', inv_g, floor=15 if full else 5)
-
-    def inv_e(P_):
-        if ei is None:
-            return Res().bad('baseline-missing', 'no error inventory for configuration ' + cfg)
-        base = {k: v for k, v in ei.items() if re.search(RULE_FNS, k)}
-        return inventory_check(err_inventory(P_, RULE_FNS), base, 'error', lambda fnq, k, n, have, cur:
-                               'proposal-rule function `%s` no longer raises %s (now raises %s)' % (fnq, k, cur))
-    ctx.check('ERR-INVENTORY', 'proposal rules', inv_e, floor=25 if full else 10)
     if full:
         ctx.check('ERRSET', 'rule violations reachable from the shared pipeline',
                   lambda P_: errset(P_, fa_for(P_), ['MessageProcessor::process_commit', 'Group::commit_internal'], ERRS,
